@@ -1049,9 +1049,13 @@ func (r *Reader) DocumentWithOptions(opts ExtractOptions) (*model.Document, erro
 		case ElementTable:
 			if elem.Table != nil && len(elem.Table.Rows) > 0 {
 				numRows := len(elem.Table.Rows)
+				// The widest row decides the column count: rows may have more
+				// cells than the first one (a first row of spanning cells)
 				numCols := 0
-				if numRows > 0 {
-					numCols = len(elem.Table.Rows[0])
+				for _, row := range elem.Table.Rows {
+					if len(row) > numCols {
+						numCols = len(row)
+					}
 				}
 
 				modelTable := model.NewTable(numRows, numCols)
